@@ -133,6 +133,10 @@ class SRec(object):
     def base(self):
         return self._base
 
+    def _owner(self):
+        """NumPy collapses chains of views: the base of a view of a view is the array that owns the memory"""
+        return self._base if self._base is not None else self
+
     @property
     def flags(self):
         return next(iter(self.cols.values())).flags
@@ -181,13 +185,13 @@ class SRec(object):
                              "formats": [self.dt.fields[n][0] for n in names],
                              "offsets": [self.dt.fields[n][1] for n in names],
                              "itemsize": self.dt.itemsize})
-            return SRec(sub, self._shape, {n: self.cols[n] for n in names}, base=self)
+            return SRec(sub, self._shape, {n: self.cols[n] for n in names}, base=self._owner())
         nd = len(self._shape)
         i = _to_index(idx, self._shape)
         probe = rnp.empty(self._shape, dtype=rnp.int8)[i]     # numpy decides shape / errors
         newcols = {n: _rows(a, i) for n, a in self.cols.items()}
         shape = probe.shape if isinstance(probe, rnp.ndarray) else ()
-        return SRec(self.dt, shape, newcols, base=None if _is_fancy(i) else self)
+        return SRec(self.dt, shape, newcols, base=None if _is_fancy(i) else self._owner())
 
     def __setitem__(self, idx, val):
         if isinstance(idx, (str, rnp.str_)):
@@ -219,9 +223,9 @@ class SRec(object):
     def view(self, *args, **kw):
         t = args[0] if args else kw.get("type", kw.get("dtype"))
         if t is None or t is SArr or t is symnp.ndarray or t is SRec or t is rnp.ndarray or t is rnp.recarray:
-            return SRec(self.dt, self._shape, {n: a.view() for n, a in self.cols.items()}, base=self)
+            return SRec(self.dt, self._shape, {n: a.view() for n, a in self.cols.items()}, base=self._owner())
         d = symnp.dtype(t)
-        r = SRec(self.dt, self._shape, {n: a.view() for n, a in self.cols.items()}, base=self)
+        r = SRec(self.dt, self._shape, {n: a.view() for n, a in self.cols.items()}, base=self._owner())
         r.dtype = d
         return r
 
@@ -249,7 +253,7 @@ class SRec(object):
         probe = rnp.empty(self._shape, dtype=rnp.int8).reshape(shape)
         nd = len(self._shape)
         cols = {n: a.reshape(probe.shape + a.shape[nd:]) for n, a in self.cols.items()}
-        return SRec(self.dt, probe.shape, cols, base=self)
+        return SRec(self.dt, probe.shape, cols, base=self._owner())
 
     def squeeze(self, axis=None):
         probe = rnp.empty(self._shape, dtype=rnp.int8).squeeze(axis)
